@@ -26,6 +26,7 @@ EXHAUSTIVE = {
                  "N=4 shapes sizes{1,2,3}: all 120 ordered partitions": "complete (shapes sampled)"},
 }
 NPINT_ARGS = True     # a quarter of the cases pass their integer arguments as NumPy integers (core.Ctx.begin)
+STRIDED_ARGS = True   # a quarter of the cases pass every array argument as a strided, non-contiguous view (core.Ctx.begin)
 WATCHDOG = {"quick": 600, "thorough": 3000}
 PATTERNS = ["none", "one", "some", "all"]
 
